@@ -1,0 +1,7 @@
+//go:build !verif
+
+package parser
+
+import "bufio"
+
+func verifChunk(*bufio.Scanner) {}
